@@ -201,6 +201,26 @@ def run():
                                'ChainMap': 'collections.ChainMap({"a": 3})'}.get(kind)
                            if kind in ('mapping', 'UserDict', 'MappingProxyType', 'ChainMap') else None)
 
+    # a keyword that names a key of the mapping argument: both counts are added (mapping first, then the keywords)
+    for w in (2, 3, 5):
+        thr = thr_for(w)
+        for ca, cb, ka, kc in itertools.product(range(0, 3), range(0, 3), range(1, 4), range(0, 2)):
+            ref = ThresholdCounter(thr)
+            for k in ['a'] * ca + ['b'] * cb + ['a'] * ka + ['c'] * kc:
+                ref.add(k)
+            tc = ThresholdCounter(thr)
+            wit = dict(threshold=thr, update="update({'a': %d, 'b': %d}, a=%d, c=%d)" % (ca, cb, ka, kc))
+            H.ev(key=('upd-both', w, ca, cb, ka, kc), sample=wit)
+            try:
+                tc.update({'a': ca, 'b': cb}, a=ka, c=kc)
+            except Exception as e:
+                H.fail('update_equals_adds', 'ThresholdCounter.update', 'mapping plus a keyword naming one of its keys; raises', wit, repr(e))
+                continue
+            if tc.total != ref.total or sorted(tc.items()) != sorted(ref.items()):
+                H.fail('update_equals_adds', 'ThresholdCounter.update', 'mapping plus a keyword naming one of its keys', wit,
+                       'total %r items %r; expected total %r items %r' % (tc.total, sorted(tc.items()), ref.total, sorted(ref.items())),
+                       HDR + 'tc = ThresholdCounter(0.4)\ntc.update({"a": 1}, a=2)\nassert tc.total == 3 and tc["a"] == 3, (tc.total, tc.items())\n')
+
     # adversarial multi-level stream for the size clause (w additions per bucket; keys entering in
     # bucket b-j with count j+2 survive compaction b)
     for w in ([12, 60] if H.thorough else [12, 60]):
